@@ -103,6 +103,7 @@ func main() {
 	prefix := flag.Int("prefix", 300, "number of outputs recorded for larger sizes")
 	one := flag.String("replay", "", "replay one case: n,seed,k")
 	walk := flag.String("walk", "", "walk one whole range with a bitmap: n,seed,limit")
+	sweep := flag.String("sweep", "", "exhaustive small sizes: N,S = every n in 1..N under seeds 1..S, walked completely with a bitmap")
 	flag.Parse()
 	w := hlib.NewOut(*out)
 	defer w.Close()
@@ -113,6 +114,21 @@ func main() {
 			panic(err)
 		}
 		w.Put(walkCase(n, s, int64(k)))
+		return
+	}
+	if *sweep != "" {
+		var n, sd int64
+		var k int
+		if _, err := fmtSscan(*sweep+",0", &n, &sd, &k); err != nil {
+			panic(err)
+		}
+		for x := int64(1); x <= n; x++ {
+			for y := int64(1); y <= sd; y++ {
+				o := walkCase(x, y*7919+x, x+2)
+				o.Class = "sweep"
+				w.Put(o)
+			}
+		}
 		return
 	}
 	if *one != "" {
